@@ -22,7 +22,8 @@ LEVEL = "fault_enumeration"
 RULE = (
     "(a) close histories, enumerated completely: (write|flush){0..3} followed by one of close | with-exit | close.close | "
     "with-exit.close | close.with-exit (75 histories) for each of 11 adapters (stream plain/.gz/.bz2/.lz4/.zst, jsonfile, "
-    "avro, sqlite, csvfile, line, text); thorough adds random histories of up to 12 operations.  Added to (a): stream histories "
+    "avro, sqlite, csvfile, line, text); thorough enumerates (write|flush){0..5} (315 histories) for 12 adapters (.zstd spelling "
+    "added) and adds 2000 random histories of up to 40 operations per shard.  Added to (a): stream histories "
     "whose records include grouped records with one group name and one flat field list but different member types, between "
     "plain records; 2-4 stream writers of one codec (plain/gz/bz2/lz4/zst/zstd, or mixed) open at the same time with "
     "interleaved writes and either close order; Avro histories over {accepted, out-of-range integer at the third field, "
@@ -49,7 +50,15 @@ RULE = (
     "directory before the first write / between writes / before close (every path-based adapter).  (f) low-level and legacy public "
     "writers on caller-supplied file objects - RecordStreamWriter / RecordOutput on open(), gzip.open, GzipFile, BZ2File, BufferedWriter, "
     "RecordPrinter, and flow.record.RecordDateSplitter - judged right after close() while the writer is still referenced and the cyclic "
-    "GC is off; SQLite histories with a refused record at every position relative to the batch boundary (batch sizes 1,2,3,4,1000).  The seed "
+    "GC is off; SQLite histories with a refused record at every position relative to the batch boundary (batch sizes 1,2,3,4,1000).  "
+    "Thorough tier sizes: split grid also with limits 5 and 10, limits 100 / 1000 with N around the part boundaries up to 3001 records, "
+    "wrap-around up to 1001 parts, 2000 random splits per shard; rotation with 15 enumerated patterns over all writers x templates x "
+    "6 extensions x 4 sentinel modes plus 2000 random patterns per shard, a third of them alternating between 4-8 targets; 2-6 writers "
+    "open at once x 10 replicas; Avro refusal sequences up to length 6; SQLite refusals with 8 batch sizes and two refusals at every "
+    "pair of positions of a run of 9; stdout writers with all 315 histories x 9 targets; 17 process states (single descriptors, "
+    "combinations, fake sys.stdout, combinations of both) x 6 adapter orders x 30 histories per adapter; 8 optimised-interpreter and 10 "
+    "working-directory children per shard; low-level writers with all (write|flush){0..5} x {close, close.close}.  The rotation files "
+    "are judged while every writer object is still referenced and the cyclic GC is off.  The seed "
     "varies the record values only; the enumerated spaces are the same for every seed.  A case is non-trivial when the "
     "writer was created and its history ran; distinct = distinct (part, adapter/target, history or N/limit/suffix or "
     "pattern/sentinel mode).  Oracle: conservation - the canonical observations (observe.obs) found on disk by the format's "
@@ -62,6 +71,11 @@ RULE = (
     "of that target's family, the last run under the exact template name."
 )
 ASSUMPTIONS = [
+    "the record pools of the stream and JSON workloads (close histories, split, rotation, stdout, child families) also hold four "
+    "identifier-coincident pairs: one type name, different field lists, the same 32-bit descriptor hash (three separator-free "
+    "coincidences with tag/seq fields and the true collision test/event[string f35453] / [string f30164, varint n]); a record never nests "
+    "both types of a pair (that is C03's known finding); the CSV pools hold free text with lone CR, CRLF, trailing CR and LF, written with the "
+    "default line terminator; a CSV file is judged by row integrity (every row is a header or one complete record, the free-text cell intact)",
     "records come from a fixed family of three descriptors (flat, with a string list, with nested record / record[]) whose values "
     "(UTC timestamps, single-precision-exact floats, 16-bit integers, bytes, text) every tested format gives back exactly; value "
     "fidelity per type is the subject of C01/C14/C18/C19/C20, not of this check",
@@ -81,7 +95,7 @@ ASSUMPTIONS = [
     "sys.stdout at exit is part of the observed behaviour; split:// on stdout (which never splits) is not exercised",
 ]
 SHARDS = {"quick": 8, "thorough": 16}
-BUDGET_S = {"quick": 150, "thorough": 900}
+BUDGET_S = {"quick": 150, "thorough": 2400}
 
 ANCHORS = [
     "flow.record.adapter:AbstractWriter.__exit__",
@@ -101,6 +115,7 @@ ANCHORS = [
 
 STREAM_KINDS = ["stream", "stream.gz", "stream.bz2", "stream.lz4", "stream.zst", "stream.zstd"]
 GROUPED_SEQS = ["gGx", "Ggx", "gxG", "xgGg"]
+COINC_SEQS = ["pPx", "Ppx", "qQq", "rRx", "eEe", "EeE", "pxP", "RrR"]  # identifier-coincident same-name types next to each other
 ADAPTERS_A = ["stream", "stream.gz", "stream.bz2", "stream.lz4", "stream.zst", "jsonfile", "avro", "sqlite", "csvfile", "line", "text"]
 ENDINGS = ["c", "x", "cc", "xc", "cx"]  # c = close(), x = leaving the with-block
 
@@ -117,20 +132,22 @@ SPLIT_TARGETS = {
     "bz2": ("out.records.bz2", "stream.bz2", None, None),
     "lz4": ("out.records.lz4", "stream.lz4", None, None),
     "zst": ("out.records.zst", "stream.zst", None, None),
+    "csv": ("out.csv", "csvfile", None, None),
+    "uri-csv": ("out.tbl", "csvfile", "csvfile", None),
 }
-SPLIT_QUICK = ["stream", "gz", "json", "avro", "noext", "uri-stream", "uri-json", "class"]
+SPLIT_QUICK = ["stream", "gz", "json", "avro", "noext", "uri-stream", "uri-json", "class", "csv", "uri-csv"]
 SPLIT_LIMITS = [1, 2, 3, 7]
 SUFFIX_LENGTHS = [1, 2, 3]
 
 # writers opened on the process's standard output (run in a worker subprocess): name -> (writer URI, adapter kind, shapes)
 STDOUT_TARGETS = {
-    "dash": ("-", "stream", "xyzgG"),
-    "empty": ("", "stream", "xyzgG"),
-    "stream-uri": ("stream://", "stream", "xyzgG"),
-    "jsonfile": ("jsonfile://", "jsonfile", "xyz"),
+    "dash": ("-", "stream", "xyzgG" + io17.COINCIDENT_SHAPES),
+    "empty": ("", "stream", "xyzgG" + io17.COINCIDENT_SHAPES),
+    "stream-uri": ("stream://", "stream", "xyzgG" + io17.COINCIDENT_SHAPES),
+    "jsonfile": ("jsonfile://", "jsonfile", "xyz" + io17.COINCIDENT_SHAPES),
     "avro": ("avro://", "avro", "x"),
     "avro-dash": ("avro://-", "avro", "x"),
-    "csvfile": ("csvfile://", "csvfile", "xy"),
+    "csvfile": ("csvfile://", "csvfile", "xyc"),
     "line": ("line://", "line", "xyz"),
     "text": ("text://", "text", "xyz"),
 }
@@ -162,6 +179,9 @@ PROC_STATES = ["close1", "close0", "close2", "close012", "close012-hold0", "fake
                "stdout-closed-at-start"]
 NO_BUFFER_STATES = ("fake-bytesio", "fake-stringio", "stdout-closed-at-start")
 NO_BUFFER_STDOUT_TYPES = ("Capture", "StringIO", "NoneType")
+# thorough: combinations (tokens joined by '+'; hold0 re-occupies descriptor 0 so that the next file lands on the lowest free one)
+PROC_STATES_THOROUGH = ["close0+close1", "close1+close2", "close0+close1+hold0", "close1+fake-stringio", "close1+fake-bytesio",
+                        "close0+close2+fake-stringio", "close2+hold0"]
 PROC_KINDS = ["stream", "stream.gz", "jsonfile", "csvfile", "avro", "sqlite"]
 PROC_HISTORIES = ["wwc", "wx", "x", "wcc", "fc", "wwfwx", "wwcx", "wxc"]
 
@@ -178,8 +198,9 @@ ROT_TEMPLATES = {
     "host": ("{record.host}/{name}-{ts:%Y%m%dT%H}", "host"),
     "n": ("by-n/{name}-n{record.n}-{ts:%H}", "n"),
 }
-ROT_EXTS = [".records.gz", ".records", ".json", ".records.zst", ".records.lz4", ".records.bz2"]
+ROT_EXTS = [".records.gz", ".records", ".json", ".records.zst", ".records.lz4", ".records.bz2", ".csv"]
 ROT_PATTERNS = ["ababa", "abab", "aabba", "abcabc", "abcba", "aba", "ab", "aaab", "abacabac"]
+ROT_PATTERNS_THOROUGH = ["abcacbabc", "aabbccaabb", "abababab", "cba", "a", "abcabcabcabcabc"]
 ROT_SENTINELS = ["none", "first", "all", "obstacles"]
 
 
@@ -224,8 +245,8 @@ def teardown(ctx):
     shutil.rmtree(ctx.state["tmp"], ignore_errors=True)
 
 
-def all_histories():
-    for n in range(4):
+def all_histories(maxlen=3):
+    for n in range(maxlen + 1):
         for pre in itertools.product("wf", repeat=n):
             for end in ENDINGS:
                 yield "".join(pre) + end
@@ -235,29 +256,44 @@ def generate(ctx):
     ctx.exhaustive = True
     idx = 0
     # (a) close histories: complete enumeration
-    for kind in ADAPTERS_A:
-        for h in all_histories():
+    deep = 3 if ctx.quick else 5  # thorough: (write|flush){0..5}, 315 histories per adapter, and the .zstd spelling as 12th adapter
+    for kind in (ADAPTERS_A if ctx.quick else ADAPTERS_A + ["stream.zstd"]):
+        for h in all_histories(deep):
             if ctx.mine(idx):
                 yield {"k": "hist", "ad": kind, "h": h, "s": subseed("c17", ctx.seed, "a", kind, h)}
             idx += 1
     # (a1) grouped records with one group name / one flat field list but different member types, between plain records
     for kind in STREAM_KINDS:
-        for h in ("wwwc", "wwwx", "wfwwx", "wwfwc", "wwwwcc"):
+        for h in (("wwwc", "wwwx", "wfwwx", "wwfwc", "wwwwcc") if ctx.quick else [h for h in all_histories(4) if h.count("w") >= 3]):
             for sq in GROUPED_SEQS:
                 if ctx.mine(idx):
                     yield {"k": "hist", "ad": kind, "h": h, "sq": sq, "s": subseed("c17", ctx.seed, "ag", kind, h, sq)}
                 idx += 1
+    # (a1b) identifier-coincident same-name types next to each other (stream codecs and JSON)
+    for kind in STREAM_KINDS + ["jsonfile"]:
+        for h in ("wwwc", "wwwx", "wwfwc", "wwwwx"):
+            for sq in COINC_SEQS:
+                if ctx.mine(idx):
+                    yield {"k": "hist", "ad": kind, "h": h, "sq": sq, "s": subseed("c17", ctx.seed, "ac", kind, h, sq)}
+                idx += 1
+    # (a1c) CSV: free text with lone CR / CRLF / LF characters, default line terminator
+    for h in ("wc", "wwwx", "wwfwc", "wwwwwwcc"):
+        for r in range(3):
+            if ctx.mine(idx):
+                yield {"k": "hist", "ad": "csvfile", "h": h, "sq": "cccxc"[r:] + "c", "s": subseed("c17", ctx.seed, "acsv", h, r)}
+            idx += 1
     # (a2) several writers of one codec open at the same time, interleaved writes, closed in either order
     for kind in STREAM_KINDS + ["mixed"]:
-        for nwr in (2, 3):
+        for nwr in ((2, 3) if ctx.quick else (2, 3, 4, 6)):
             for order in ("fwd", "rev"):
                 for inter in ("rr", "rand"):
-                    if ctx.mine(idx):
-                        yield {"k": "overlap", "ad": kind, "nw": nwr, "order": order, "inter": inter,
-                               "s": subseed("c17", ctx.seed, "ao", kind, nwr, order, inter)}
-                    idx += 1
+                    for rep_ in range(1 if ctx.quick else 10):
+                        if ctx.mine(idx):
+                            yield {"k": "overlap", "ad": kind, "nw": nwr, "order": order, "inter": inter,
+                                   "s": subseed("c17", ctx.seed, "ao", kind, nwr, order, inter, rep_)}
+                        idx += 1
     # (a3) Avro: records the encoder refuses in the middle of a history, the producer carries on
-    for n in range(1, 5 if ctx.quick else 6):
+    for n in range(1, 5 if ctx.quick else 7):
         for seq in itertools.product("vbs", repeat=n):
             seq = "".join(seq)
             if "b" not in seq and "s" not in seq:
@@ -271,7 +307,7 @@ def generate(ctx):
     # (b) split: complete enumeration of the stated grid
     targets = SPLIT_QUICK if ctx.quick else list(SPLIT_TARGETS)
     for tg in targets:
-        for limit in SPLIT_LIMITS:
+        for limit in (SPLIT_LIMITS if ctx.quick else SPLIT_LIMITS + [5, 10]):
             for sl in SUFFIX_LENGTHS:
                 for n in range(0, 3 * limit + 2):
                     for end in ("x", "c"):
@@ -282,7 +318,7 @@ def generate(ctx):
     # (b') more parts than 10**suffix_length (a wrapping suffix would reuse the name of an earlier part)
     wrap = [(1, 1, 11), (1, 1, 12), (1, 1, 23), (2, 1, 21), (2, 1, 24)]
     if not ctx.quick:
-        wrap += [(1, 2, 101), (1, 2, 105), (2, 2, 203), (3, 1, 35), (1, 1, 101)]
+        wrap += [(1, 2, 101), (1, 2, 105), (2, 2, 203), (3, 1, 35), (1, 1, 101), (1, 3, 1001), (2, 1, 45), (5, 1, 56), (1, 2, 250)]
     for tg in (["stream", "json", "gz", "uri-stream"] if ctx.quick else list(SPLIT_TARGETS)):
         for limit, sl, n in wrap:
             for end in ("x", "c"):
@@ -294,7 +330,7 @@ def generate(ctx):
     for wk in ROT_WRITERS:
         for tname in ROT_TEMPLATES:
             for ei, ext in enumerate(ROT_EXTS):
-                for pi, pat in enumerate(ROT_PATTERNS):
+                for pi, pat in enumerate(ROT_PATTERNS if ctx.quick else ROT_PATTERNS + ROT_PATTERNS_THOROUGH):
                     for si, sent in enumerate(ROT_SENTINELS):
                         if ctx.quick and (pi + si + ei) % 3:
                             continue
@@ -303,17 +339,42 @@ def generate(ctx):
                             yield {"k": "rot", "w": wk, "t": tname, "ext": ext, "pat": pat, "sent": sent, "phases": phases,
                                    "s": subseed("c17", ctx.seed, "c", wk, tname, ext, pat, sent)}
                         idx += 1
+    # (b4) thorough: large record counts around the part boundaries of large limits, and the writer's default count (1000) / suffix length
+    if not ctx.quick:
+        for tg in SPLIT_TARGETS:
+            for limit, ns_ in ((100, (99, 100, 101, 199, 200, 201, 1000)), (1000, (999, 1000, 1001, 2000, 2001, 3001))):
+                for n in ns_:
+                    end = "xc"[(n + limit + len(tg)) % 2]
+                    if ctx.mine(idx):
+                        yield {"k": "split", "tg": tg, "limit": limit, "sl": 2, "n": n, "end": end, "s": subseed("c17", ctx.seed, "bb", tg, limit, n)}
+                    idx += 1
     # (b3) grouped records in split parts
     for tg in ("stream", "gz", "noext", "uri-stream"):
-        for limit in (1, 2, 3):
-            for n in (4, 5, 7):
-                for qi, sq in enumerate(GROUPED_SEQS[:2]):
+        for limit in ((1, 2, 3) if ctx.quick else (1, 2, 3, 4, 5)):
+            for n in ((4, 5, 7) if ctx.quick else (3, 4, 5, 6, 7, 9, 11, 16)):
+                for qi, sq in enumerate(GROUPED_SEQS[:2] if ctx.quick else GROUPED_SEQS):
                     if ctx.mine(idx):
                         yield {"k": "split", "tg": tg, "limit": limit, "sl": 2, "n": n, "end": "xc"[(n + qi + limit) % 2], "sq": sq,
                                "s": subseed("c17", ctx.seed, "bg", tg, limit, n, sq)}
                     idx += 1
+    # (b3b) identifier-coincident types and CSV free text in split parts
+    for tg in ("stream", "gz", "json", "uri-json"):
+        for limit in (1, 2, 3):
+            for n in (4, 5, 7):
+                for qi, sq in enumerate(COINC_SEQS[:4] if ctx.quick else COINC_SEQS):
+                    if ctx.mine(idx):
+                        yield {"k": "split", "tg": tg, "limit": limit, "sl": 2, "n": n, "end": "xc"[(n + qi + limit) % 2], "sq": sq,
+                               "s": subseed("c17", ctx.seed, "bc", tg, limit, n, sq)}
+                    idx += 1
+    for tg in ("csv", "uri-csv"):
+        for limit in (1, 2, 3):
+            for n in (3, 5, 8):
+                if ctx.mine(idx):
+                    yield {"k": "split", "tg": tg, "limit": limit, "sl": 1, "n": n, "end": "xc"[(n + limit) % 2], "sq": "ccxc",
+                           "s": subseed("c17", ctx.seed, "bcsv", tg, limit, n)}
+                idx += 1
     # (b'') split targets with relative names, written by a worker process whose cwd is the case directory
-    grid = SPLIT_REL_GRID[:4] if ctx.quick else SPLIT_REL_GRID + [(2, 2, 0), (1, 1, 12)]
+    grid = SPLIT_REL_GRID[:4] if ctx.quick else SPLIT_REL_GRID + [(2, 2, 0), (1, 1, 12), (5, 2, 23), (2, 3, 4), (1, 2, 1), (10, 1, 31)]
     for form in SPLIT_REL_FORMS:
         for gi, (limit, sl, n) in enumerate(grid):
             if ctx.quick and form.startswith("rdump") and gi > 1:
@@ -324,8 +385,9 @@ def generate(ctx):
                        "s": subseed("c17", ctx.seed, "brel", form, limit, sl, n)}
             idx += 1
     # (f) low-level / legacy public writers on caller-supplied file objects, judged right after close()
+    ll_hist = LL_HISTORIES if ctx.quick else sorted({"".join(pre) + end for n in range(6) for pre in itertools.product("wf", repeat=n) for end in ("c", "cc")})
     for tg in LL_TARGETS:
-        for h in LL_HISTORIES:
+        for h in ll_hist:
             if ctx.mine(idx):
                 yield {"k": "ll", "tg": tg, "h": h, "s": subseed("c17", ctx.seed, "f", tg, h)}
             idx += 1
@@ -334,13 +396,20 @@ def generate(ctx):
                 if ctx.mine(idx):
                     yield {"k": "ll", "tg": tg, "h": "wwwc", "sq": sq, "s": subseed("c17", ctx.seed, "fg", tg, sq)}
                 idx += 1
-    for pat in ("ab", "aba", "abcab", "aab", "abcabc", "a"):
+    for pat in (("ab", "aba", "abcab", "aab", "abcabc", "a") if ctx.quick else
+                ("ab", "aba", "abcab", "aab", "abcabc", "a", "abcabcabcabc", "aaaabbbbcccc", "cba", "abacabadabacaba".replace("d", "c"), "ba", "ccab")):
         for end in ("c", "cc"):
             if ctx.mine(idx):
                 yield {"k": "datesplit", "pat": pat, "end": end, "s": subseed("c17", ctx.seed, "g", pat, end)}
             idx += 1
     # (a4) SQLite: one or two refused records at every position relative to the batch boundary
-    for bs in (1, 2, 3, 4, 1000):
+    for bs in ((1, 2, 3, 4, 1000) if ctx.quick else (1, 2, 3, 4, 5, 7, 8, 1000)):
+        if not ctx.quick:
+            for p1, p2 in itertools.combinations(range(9), 2):  # two refusals at every pair of positions of a run of 9
+                seq = "".join("bs"[(p1 + p2) % 2] if i in (p1, p2) else "v" for i in range(9))
+                if ctx.mine(idx):
+                    yield {"k": "sqlrefuse", "seq": seq, "bs": bs, "end": "cx"[(p1 + bs) % 2], "s": subseed("c17", ctx.seed, "s3", bs, seq)}
+                idx += 1
         for pos in range(7):
             for bad in ("b", "s"):
                 seq = "v" * pos + bad + "v" * (6 - pos)
@@ -355,36 +424,50 @@ def generate(ctx):
             idx += 1
     # (e2) optimised interpreters and (e3) working-directory histories: at least one child of each per shard
     variants = list(OPT_VARIANTS)
-    for r in range(1 if ctx.quick else 3):
+    for r in range(1 if ctx.quick else 8):
         yield {"k": "opt", "v": variants[(ctx.shard + r) % len(variants)], "rot": r, "s": subseed("c17", ctx.seed, "h", ctx.shard, r)}
-    for r in range(1 if ctx.quick else 4):
+    for r in range(1 if ctx.quick else 10):
         yield {"k": "cwd", "rot": (ctx.shard + 2 * r) % len(CWD_KINDS), "nk": 5 if ctx.quick else len(CWD_KINDS), "s": subseed("c17", ctx.seed, "i", ctx.shard, r)}
     # (e) process-state family: one child per (state, rotation of the adapter order)
-    for st in PROC_STATES:
+    for st in (PROC_STATES if ctx.quick else PROC_STATES + PROC_STATES_THOROUGH):
         for rot in range(2 if ctx.quick else len(PROC_KINDS)):
             if ctx.mine(idx):
-                yield {"k": "procstate", "state": st, "rot": rot, "nh": 2 if ctx.quick else 4, "s": subseed("c17", ctx.seed, "e", st, rot)}
+                yield {"k": "procstate", "state": st, "rot": rot, "nh": 2 if ctx.quick else 30, "s": subseed("c17", ctx.seed, "e", st, rot)}
             idx += 1
     # (d) writers on standard output, one worker process per case
     for tg in (STDOUT_QUICK_TARGETS if ctx.quick else list(STDOUT_TARGETS)):
-        for h in (STDOUT_QUICK_HISTORIES if ctx.quick else list(all_histories())):
+        for h in (STDOUT_QUICK_HISTORIES if ctx.quick else list(all_histories(5))):
             if ctx.mine(idx):
                 yield {"k": "stdout", "tg": tg, "h": h, "s": subseed("c17", ctx.seed, "d", tg, h)}
+            idx += 1
+    # (c2) rotation with identifier-coincident types (stream / JSON) and CSV free text
+    for wk in ROT_WRITERS:
+        for ext in (".records", ".records.gz", ".json"):
+            for sq in (COINC_SEQS[:4] if ctx.quick else COINC_SEQS):
+                if ctx.mine(idx):
+                    yield {"k": "rot", "w": wk, "t": "hour", "ext": ext, "pat": "ababa" + "b" * (len(sq) % 2), "sent": "none", "phases": 1, "sq": sq,
+                           "s": subseed("c17", ctx.seed, "cc", wk, ext, sq)}
+                idx += 1
+        for pat in ("ababa", "aabb", "abcab"):
+            if ctx.mine(idx):
+                yield {"k": "rot", "w": wk, "t": "minute", "ext": ".csv", "pat": pat, "sent": "first", "phases": 1, "sq": "ccxc",
+                       "s": subseed("c17", ctx.seed, "ccsv", wk, pat)}
             idx += 1
     if ctx.quick:
         return
     # thorough: random longer histories, larger splits, longer rotation patterns (seeded)
     rng = random.Random(subseed("c17", ctx.seed, "rand", ctx.shard))
-    for i in range(500):
+    for i in range(2000):
         kind = rng.choice(ADAPTERS_A)
-        pre = "".join(rng.choice("wwf") for _ in range(rng.randint(4, 12)))
+        pre = "".join(rng.choice("wwf") for _ in range(rng.randint(5, 40 if i % 10 == 0 else 14)))
         yield {"k": "hist", "ad": kind, "h": pre + rng.choice(ENDINGS), "s": subseed("c17", ctx.seed, "ar", ctx.shard, i)}
-    for i in range(250):
-        limit = rng.choice([1, 2, 3, 5, 7, 10])
+    for i in range(2000):
+        limit = rng.choice([1, 2, 3, 5, 7, 10, 25, 100])
         yield {"k": "split", "tg": rng.choice(list(SPLIT_TARGETS)), "limit": limit, "sl": rng.choice(SUFFIX_LENGTHS),
-               "n": rng.randint(0, 12 * limit + 1), "end": rng.choice("xc"), "s": subseed("c17", ctx.seed, "br", ctx.shard, i)}
-    for i in range(250):
-        pat = "".join(rng.choice("abc") for _ in range(rng.randint(3, 14)))
+               "n": rng.randint(0, (12 if limit < 25 else 4) * limit + 1), "end": rng.choice("xc"), "s": subseed("c17", ctx.seed, "br", ctx.shard, i)}
+    for i in range(2000):
+        alphabet = "abc" if i % 3 else "abcdefgh"[: rng.randint(4, 8)]  # a third of the random patterns alternate between 4-8 targets
+        pat = "".join(rng.choice(alphabet) for _ in range(rng.randint(3, 40 if i % 8 == 0 else 16)))
         yield {"k": "rot", "w": rng.choice(ROT_WRITERS), "t": rng.choice(list(ROT_TEMPLATES)), "ext": rng.choice(ROT_EXTS), "pat": pat,
                "sent": rng.choice(ROT_SENTINELS), "phases": rng.choice([1, 2, 3]), "s": subseed("c17", ctx.seed, "cr", ctx.shard, i)}
 
@@ -395,6 +478,15 @@ def case_dir(ctx):
     d = os.path.join(ctx.state["tmp"], "c%d" % ctx.state["n"])
     os.makedirs(d)
     return d
+
+
+def has_coincident_pair(expected):
+    """Two records of one type NAME with different field lists (the generated pairs share their identifier hash)."""
+    seen = {}
+    for o in expected:
+        if o[0] == "rec":
+            seen.setdefault(o[1], set()).add(repr(o[2]))
+    return any(len(v) > 1 for v in seen.values())
 
 
 def run_ops(w, ops, records, errors):
@@ -443,9 +535,11 @@ def exec_history(ctx, case):
     d = case_dir(ctx)
     path = os.path.join(d, "out" + spec["ext"])
     nw = hist.count("w")
-    shapes = spec["shapes"] + ("gG" if fam == "stream" else "")
+    shapes = io17.shapes_for(kind)
     records = io17.make_records(case["s"], nw, shapes if fam != "avro" else "x", shape_seq=case.get("sq"))
     expected = io17.observe_all(records)
+    if has_coincident_pair(expected):
+        ctx.event("a_histories_with_coincident_pair")
     if any(o[0] == "grouped" for o in expected):
         ctx.event("a_histories_with_grouped_records")
         if len({tuple(m[1] for m in o[2]) for o in expected if o[0] == "grouped"}) > 1:
@@ -527,9 +621,11 @@ def exec_split(ctx, case):
     limit, sl, n, end = case["limit"], case["sl"], case["n"], case["end"]
     d = case_dir(ctx)
     base = os.path.join(d, fname)
-    shapes = spec["shapes"] + ("gG" if fam == "stream" else "")
+    shapes = io17.shapes_for(kind)
     records = io17.make_records(case["s"], n, shapes if fam != "avro" else "x", shape_seq=case.get("sq"))
     expected = io17.observe_all(records)
+    if has_coincident_pair(expected):
+        ctx.event("b_cases_with_coincident_pair")
     if len({tuple(m[1] for m in o[2]) for o in expected if o[0] == "grouped"}) > 1:
         ctx.event("b_cases_with_both_group_kinds")
     errors = []
@@ -609,6 +705,13 @@ def analyse_parts(ctx, case, d, spec, read_scheme, expected, extra, sample_kind)
         got = view.reader_obs
         ind_ids = None if view.indep is None else view.indep.get("idents")
         problems = []
+        if fam == "csv" and view.indep is not None:
+            got = io17.text_obs(view, expected)
+            ind_ids = view.indep["tags"]
+            rowp = io17.csv_row_problems(view.indep["rows_data"], [o for o in got if o is not None])
+            if None in got or rowp:
+                problems.append(("indep-rejects", "a CSV part holds a broken row or a record that was never written",
+                                 {"error": [q[1:] for q in rowp][:3] or "unknown tag"}))
         if view.reader_error is not None:
             problems.append(("reader-rejects", "a part is not readable on its own", {"error": view.reader_error}))
         if view.indep_error is not None:
@@ -629,7 +732,7 @@ def analyse_parts(ctx, case, d, spec, read_scheme, expected, extra, sample_kind)
             unclassified_part_problem = True
             ctx.violation(None, "split: a part holds more records than the limit", detail=dict(extra, part=nm, holds=len(got), files=names))
         concat_reader.append(got)
-        concat_indep.append(view.indep["obs"] if fam == "stream" else [tuple(x) for x in ind_ids])
+        concat_indep.append(view.indep["obs"] if fam == "stream" else list(ind_ids) if fam == "csv" else [tuple(x) for x in ind_ids])
         if fam == "stream":
             with open(p, "rb") as f:
                 raw.append(f.read())
@@ -643,7 +746,7 @@ def analyse_parts(ctx, case, d, spec, read_scheme, expected, extra, sample_kind)
                           detail=dict(extra, files=names, per_part=[len(x) for x in concat_reader], written_ids=[io17.ident(o) for o in expected[:12]],
                                       read_ids=[io17.ident(o) for o in flat[:12]]))
         flat_i = [o for part in concat_indep for o in part]
-        want_i = expected if fam == "stream" else [io17.ident(o) for o in expected]
+        want_i = expected if fam == "stream" else [io17.ident(o)[1] for o in expected] if fam == "csv" else [io17.ident(o) for o in expected]
         if flat_i != want_i:
             held = False
             ctx.violation(None, "split: the concatenation seen by the independent reader is not the sequence written",
@@ -671,7 +774,7 @@ def analyse_parts(ctx, case, d, spec, read_scheme, expected, extra, sample_kind)
 # ---- (c) rotation ---------------------------------------------------------------------------------
 BASE_TS = _dt.datetime(2023, 1, 1, 10, 0, 0, tzinfo=io17.UTC)
 ROT_KIND = {".records.gz": "stream.gz", ".records": "stream", ".json": "jsonfile", ".records.zst": "stream.zst", ".records.lz4": "stream.lz4",
-            ".records.bz2": "stream.bz2"}
+            ".records.bz2": "stream.bz2", ".csv": "csvfile"}
 
 
 def rotation_stem(basename):
@@ -679,6 +782,22 @@ def rotation_stem(basename):
 
 
 def exec_rotation(ctx, case):
+    """The files are judged while every writer object of the case is still referenced and the cyclic GC is off: the verdict
+    does not lean on __del__ / garbage collection closing anything."""
+    import gc
+
+    keep = []
+    was_enabled = gc.isenabled()
+    gc.disable()
+    try:
+        _exec_rotation(ctx, case, keep)
+    finally:
+        del keep[:]
+        if was_enabled:
+            gc.enable()
+
+
+def _exec_rotation(ctx, case, keep):
     from flow.record import RecordWriter
     from flow.record.stream import PathTemplateWriter, RecordArchiver
 
@@ -695,25 +814,32 @@ def exec_rotation(ctx, case):
     # the pattern letters name the targets; they differ in the dimension the template varies in, everything the
     # template does not mention is random per record.  Within-hour templates keep ALL records inside one hour.
     base = BASE_TS + _dt.timedelta(days=rng.randrange(300))
-    letters = "abc"
+    letters = "abcdefgh"  # up to eight targets (the enumerated patterns use three)
     stamps, rec_extra = [], []
-    hosts = rng.sample(["alpha", "bravo", "host-3", "h"], 3)
-    ns = rng.sample([11, 22, 33, 44], 3)
+    if max(letters.index(ch) for ch in pat) < 3:
+        hosts = rng.sample(["alpha", "bravo", "host-3", "h"], 3)
+        ns = rng.sample([11, 22, 33, 44], 3)
+    else:
+        hosts = rng.sample(["alpha", "bravo", "host-3", "h", "delta", "e5", "srv_f", "GOLF", "hx"], 8)
+        ns = rng.sample([11, 22, 33, 44, 55, 66, 77, 88, 99], 8)
+    minutes = [7, 27, 47, 2, 12, 17, 22, 32]
+    seconds = [5, 18, 31, 1, 9, 14, 23, 40]
     for ch in pat:
         li = letters.index(ch)
         if dim == "hour":
-            b = base + (_dt.timedelta(hours=1) if ch == "b" else _dt.timedelta(days=1, hours=(case["s"] % 2) * 2) if ch == "c" else _dt.timedelta(0))
+            b = base + (_dt.timedelta(hours=1) if ch == "b" else _dt.timedelta(days=1, hours=(case["s"] % 2) * 2) if ch == "c"
+                        else _dt.timedelta(days=li - 1, hours=li % 3) if li > 2 else _dt.timedelta(0))
             ts = b + _dt.timedelta(minutes=rng.randrange(60), seconds=rng.randrange(60), microseconds=rng.randrange(10**6))
         elif dim == "minute":
-            ts = base + _dt.timedelta(minutes=7 + 20 * li, seconds=rng.randrange(60), microseconds=rng.randrange(10**6))
+            ts = base + _dt.timedelta(minutes=minutes[li], seconds=rng.randrange(60), microseconds=rng.randrange(10**6))
         elif dim == "second":
-            ts = base + _dt.timedelta(minutes=31, seconds=5 + 13 * li, microseconds=rng.randrange(10**6))
+            ts = base + _dt.timedelta(minutes=31, seconds=seconds[li], microseconds=rng.randrange(10**6))
         else:
             ts = base + _dt.timedelta(minutes=rng.randrange(60), seconds=rng.randrange(60), microseconds=rng.randrange(10**6))
         stamps.append(ts)
         rec_extra.append({"host": hosts[li] if dim == "host" else rng.choice(hosts), "n": ns[li] if dim == "n" else rng.choice(ns)})
-    shapes = "h" if dim in ("host", "n") else spec["shapes"] + "h"
-    records = io17.make_records(case["s"], len(pat), shapes, generated=stamps, extra=rec_extra)
+    shapes = "h" if dim in ("host", "n") else io17.shapes_for(kind, grouped=False) + "h"
+    records = io17.make_records(case["s"], len(pat), shapes, generated=stamps, extra=rec_extra, shape_seq=case.get("sq") if dim not in ("host", "n") else None)
     expected = io17.observe_all(records)
     if dim != "hour":
         ctx.event("c_within_hour_cases")
@@ -788,10 +914,13 @@ def exec_rotation(ctx, case):
         seg = records[bounds[ph]: bounds[ph + 1]]
         ops = "w" * len(seg) + ("c" if (ph + len(pat)) % 2 else "cc")
         run_ops(w, ops, seg, errors)
+        keep.append(w)
         del w
     renames = list(ctx.state["renames"])
     ctx.state["renames"].clear()
-    ctx.nontrivial("rot", wk, case["t"], ext, pat, sent, nph)
+    ctx.nontrivial("rot", wk, case["t"], ext, pat, sent, nph, case.get("sq"))
+    if has_coincident_pair(expected):
+        ctx.event("c_cases_with_coincident_pair")
     ctx.cell("rot", wk, ext, "sentinel=" + sent)
     ctx.event("c_cases")
     ctx.event("c_records_written", len(records))
@@ -841,6 +970,17 @@ def exec_rotation(ctx, case):
             bad = True
             ctx.violation(None, "rotation: a record file is not readable",
                           detail=dict(extra, file=p[len(root):], reader=view.reader_error, independent=view.indep_error, files=rel))
+            continue
+        if fam == "csv":
+            found = io17.text_obs(view, expected)
+            rowp = io17.csv_row_problems(view.indep["rows_data"], [o for o in found if o is not None])
+            if None in found or rowp:
+                bad = True
+                ctx.violation(None, "rotation: a CSV file holds a broken row or a record that was never written",
+                              detail=dict(extra, file=p[len(root):], problems=[q[1:] for q in rowp][:3]))
+                continue
+            per_file[p] = found
+            ctx.event("c_files_read")
             continue
         ind = view.indep["obs"] if fam == "stream" else [tuple(x) for x in view.indep["idents"]]
         want = view.reader_obs if fam == "stream" else [io17.ident(o) for o in view.reader_obs]
@@ -1052,7 +1192,7 @@ def exec_split_relative(ctx, case):
     spec = io17.KINDS[kind]
     fam = spec["fam"]
     limit, sl, n, end = case["limit"], case["sl"], case["n"], case["end"]
-    shapes = spec["shapes"] if fam != "avro" else "x"
+    shapes = io17.shapes_for(kind) if fam != "avro" else "x"
     records = io17.make_records(case["s"], n, shapes, generated=io17.fixed_generated(n))
     expected = io17.observe_all(records)
     d = case_dir(ctx)  # the worker's cwd; nothing in the shard process ever chdirs
@@ -1505,7 +1645,7 @@ def exec_cwd(ctx, case):
         hist = CWD_HISTORIES[(ki + case["rot"] + case["s"]) % len(CWD_HISTORIES)]
         rel = "export/out%d%s" % (ki, spec["ext"])
         seed = subseed(case["s"], ki)
-        shapes = "x" if spec["fam"] == "avro" else spec["shapes"]
+        shapes = "x" if spec["fam"] == "avro" else io17.shapes_for(kind)
         sch = spec["scheme"]
         jobs.append({"uri": ("%s://%s" % (sch, rel)) if sch else rel, "hist": hist, "seed": seed, "shapes": shapes, "cwd": dir_a, "dirs": [dir_a, dir_b]})
         meta.append((kind, rel, hist, seed, shapes))
@@ -1541,10 +1681,11 @@ def exec_procstate(ctx, case):
     jobs, meta = [], []
     for ki, kind in enumerate(kinds):
         spec = io17.KINDS[kind]
-        hists = [PROC_HISTORIES[(rot + ki) % 2]] + rng.sample(PROC_HISTORIES, case["nh"] - 1)  # a non-empty history first
+        pool = PROC_HISTORIES if case["nh"] <= len(PROC_HISTORIES) else sorted(set(all_histories(3)) | set(PROC_HISTORIES))
+        hists = [PROC_HISTORIES[(rot + ki) % 2]] + rng.sample(pool, case["nh"] - 1)  # a non-empty history first
         for hi, hist in enumerate(hists):
             path = os.path.join(d, "k%d_h%d%s" % (ki, hi, spec["ext"]))
-            shapes = "x" if spec["fam"] == "avro" else spec["shapes"]
+            shapes = "x" if spec["fam"] == "avro" else io17.shapes_for(kind)
             seed = subseed(case["s"], ki, hi)
             jobs.append({"uri": io17.write_uri(kind, path), "hist": hist, "seed": seed, "shapes": shapes})
             meta.append((kind, path, hist, seed, shapes))
@@ -1730,6 +1871,10 @@ def finish(ctx):
                 "no SQLite history in which a record was refused and others accepted")
     ctx.require(ev.get("h_cases", 0) > 0 and ev.get("h_jobs", 0) > 0, "no child interpreter of the optimisation family reported")
     ctx.require(ev.get("i_cases", 0) > 0 and ev.get("i_jobs", 0) > 0, "no working-directory child reported")
+    ctx.require(io17.coincident_ok(), "the identifier-coincident descriptor pairs do not share their identifier on this tree")
+    ctx.require(ev.get("a_histories_with_coincident_pair", 0) > 0 and ev.get("b_cases_with_coincident_pair", 0) > 0
+                and ev.get("c_cases_with_coincident_pair", 0) > 0,
+                "no close history / split / rotation wrote both types of an identifier-coincident pair")
     ctx.require(ev.get("b_rel_cases", 0) > 0, "part (b): no split target with a relative name was written")
     ctx.require(ev.get("d_cases", 0) > 0 and ev.get("d_independent_reads", 0) > 0 and ev.get("d_bytes_captured", 0) > 0,
                 "part (d): no standard-output capture was read back")
